@@ -69,6 +69,7 @@ SCRIPT = """SECTIONS {
   .tbss : { *(.tbss) }
   .init_array : { KEEP(*(.init_array)) }
   .data.rel.ro : { *(.data.rel.ro) }
+  . = ALIGN(65536);
   .data : { *(.data) }
   .bss : { *(.bss) }
 }
@@ -382,7 +383,7 @@ def main():
                 sh = shape(m, v)
                 rep = {"arch": arch, "subset_mask": m, "variant": v, "kind": kind, "row": row,
                        "describe": describe(arch, m, v, kind, row)}
-                tag = "%s:%s" % (arch, kind)
+                tag = kind + ("+script" if row[3] else "")
                 if rc == 0:
                     stats["accepted"] += 1
                     per_kind[kind]["accepted"] += 1
@@ -396,23 +397,23 @@ def main():
                         pair_cov.add((s1[0], s1[4], s1[5], s2[0], s2[4], s2[5]))
                     for k in classify(keys):
                         what = next(msg_ for kk, msg_ in keys if kk == k)
-                        chk.violation("%s:%s" % (tag, k), "%s %s; member %s"
-                                      % (k, what, json.dumps(rep["describe"])[:300]), rep)
+                        chk.violation("%s:%s" % (k, tag), "[%s] %s; member %s"
+                                      % (arch, what, json.dumps(rep["describe"])[:300]), rep)
                     if nat is not None:
                         stats["native_runs"] += 1
                         if nat == 0:
                             stats["native_ok"] += 1
                         else:
-                            chk.violation("%s:native-run" % tag, "well-formed by the monitor but "
+                            chk.violation("native-run:%s" % tag, "well-formed by the monitor but "
                                           "the program exits %r instead of 0" % (nat,), rep)
                     if len(samples) < 3 and len(sh) >= 5 and row != DEFAULT_ROW:
                         samples.append(rep["describe"])
                 elif rc == 1:
                     stats["rejected"] += 1
                     first = msg.strip().split("\n")[0][:90]
-                    rejected.setdefault("%s: %s" % (tag, first), []).append((m, v, row))
+                    rejected.setdefault("%s %s: %s" % (arch, tag, first), []).append((m, v, row))
                 else:
-                    chk.violation("%s:crash:rc=%s" % (tag, rc), "wild died (rc=%s): %s"
+                    chk.violation("crash:rc=%s:%s" % (rc, tag), "wild died (rc=%s): %s"
                                   % (rc, msg[-200:]), rep)
                 for ref, rrc, rkeys, rerr in refres:
                     st = refstats[ref]
@@ -479,7 +480,9 @@ def _tolerated_reference_behaviour(key):
     return (ref, rule) in TOLERATED or (ref, kind, rule) in TOLERATED
 
 
-TOLERATED = set()
+# lld 14 sizes PT_PHDR before it drops unused program headers, so PT_PHDR is longer than the table
+# (harmless: loaders take the count from e_phnum / AT_PHNUM). The property statement forbids it.
+TOLERATED = {("lld", "phdr-extent")}
 
 
 if __name__ == "__main__":
